@@ -38,6 +38,7 @@ func main() {
 		npool    = fs.Int("n", 200, "pool size (genpool)")
 		family   = fs.String("family", "", "force one schedule family (conc)")
 		firstuse = fs.Int("firstuse", -1, "conc: >= 0 makes the first episode of this process a first-use twin episode (all clients call one kind of function for the first time in the process, simultaneously)")
+		grantlog = fs.String("grantlog", "", "conc: append every scheduling decision (client, slice, forced gc) to this file as it is made")
 		dumpep   = fs.Bool("dumpep", false, "conc: print episode -from as a self-contained replay episode and exit")
 		eidx     = fs.Int("eidx", 0, "enumeration share index")
 		en       = fs.Int("en", 1, "enumeration share count")
@@ -58,7 +59,7 @@ func main() {
 		os.Exit(underBaton(*seed, func() int { return soloMain(*pool, *index, *count) }))
 	case "conc":
 		os.Exit(concMain(concArgs{config: *config, seed: *seed, worker: *worker, pool: *pool, ref: *refFile, from: *from, to: *to,
-			dur: *dur, caseFile: *caseFile, trace: *trace, family: *family, dumpep: *dumpep, firstuse: *firstuse, eidx: *eidx, en: *en}))
+			dur: *dur, caseFile: *caseFile, trace: *trace, family: *family, dumpep: *dumpep, firstuse: *firstuse, eidx: *eidx, en: *en, grantlog: *grantlog}))
 	case "canary":
 		os.Exit(canaryMain(*prop == "locked"))
 	default:
